@@ -70,6 +70,7 @@ func contractProps(c *vc.Contract) map[string]bool {
 	}
 	add(c.Requires)
 	add(c.Ensures)
+	add(c.Serves)
 	for _, l := range c.Loops {
 		add(l.Inv)
 		if l.Dec != nil {
@@ -155,12 +156,60 @@ func cmdCheck(args []string) {
 			usedContracts[c] = true
 		}
 		noTerm = append(noTerm, r.NoTerm...)
+		if requireVariants(*verif, *prop) {
+			for _, nt := range r.NoTerm {
+				viols = append(viols, viol{id: f + "#dec.missing." + strings.ReplaceAll(strings.TrimPrefix(nt, f+" "), " ", ""), what: "loop without a proved variant in a function this termination property quantifies over: " + nt})
+			}
+		}
 		assumes = append(assumes, r.Assumes...)
 		for _, o := range r.Ctx.Obls {
 			if hasProp(o.Props, *prop) {
 				obls = append(obls, o)
 			}
 		}
+	}
+	// run-time safety of everything the property's functions call (transitively): a panic in a callee takes the
+	// caller down with it, whatever the caller's own clauses say. Only the obligations that stand for Go
+	// run-time panics are taken from the callees; their functional clauses belong to the properties they are tagged with.
+	safetyClass := map[string]bool{"idx": true, "slice": true, "nil": true, "panic": true, "div": true}
+	var calleeFns []string
+	{
+		seen := map[string]bool{}
+		for _, f := range fns {
+			seen[f] = true
+		}
+		queue := []string{}
+		for _, f := range fns {
+			if r := results[f]; r != nil {
+				queue = append(queue, r.Calls...)
+			}
+		}
+		for len(queue) > 0 {
+			c := queue[0]
+			queue = queue[1:]
+			if seen[c] {
+				continue
+			}
+			seen[c] = true
+			ct := w.Contracts[c]
+			if ct == nil || ct.Assumed || ct.Lemma || w.Decls[c] == nil || w.Decls[c].Body == nil {
+				continue
+			}
+			r := w.VerifyFunc(c)
+			results[c] = r
+			if r.Aborted != "" {
+				viols = append(viols, viol{id: c + "#subset", what: "called function left the verifiable subset: " + r.Aborted})
+				continue
+			}
+			calleeFns = append(calleeFns, c)
+			for _, o := range r.Ctx.Obls {
+				if safetyClass[o.Class] {
+					obls = append(obls, o)
+				}
+			}
+			queue = append(queue, r.Calls...)
+		}
+		sort.Strings(calleeFns)
 	}
 	genSecs := time.Since(genT0).Seconds()
 	bounded := runBounded(*repo, *verif, *prop, *tier)
@@ -346,7 +395,7 @@ func cmdCheck(args []string) {
 		"coverage": map[string]interface{}{
 			"obligations": len(obls), "discharged": discharged,
 			"checker_cmd":  fmt.Sprintf("bin/lzvc check -prop %s -tier %s (VCs generated from %s, discharged by z3-new/z3/cvc5, %s per solver)", *prop, *tier, *repo, timeout),
-			"trusted_base": trusted, "functions_under_contract": fns, "obligations_by_class": byClass,
+			"trusted_base": trusted, "functions_under_contract": fns, "callees_checked_for_runtime_panics": calleeFns, "obligations_by_class": byClass,
 			"discharged_by_solver": bySolver, "solver_seconds": round3(solverSecs), "vcgen_seconds": round3(genSecs),
 			"loops_without_variant": dedupStrs(noTerm), "explicit_assumes": assumes, "expected_clause_obligations": len(expected),
 			"known_findings_hit": knownHit, "samples": samples,
@@ -369,6 +418,19 @@ func cmdCheck(args []string) {
 	if nviol > 0 {
 		os.Exit(1)
 	}
+}
+
+// requireVariants: properties that claim termination treat a loop without a variant as a violation.
+func requireVariants(verif, prop string) bool {
+	b, err := os.ReadFile(filepath.Join(verif, "levels.json"))
+	if err != nil {
+		return false
+	}
+	var lv map[string]struct{ RequireVariants bool }
+	if json.Unmarshal(b, &lv) != nil {
+		return false
+	}
+	return lv[prop].RequireVariants
 }
 
 func dedupStrs(s []string) []string {
